@@ -147,7 +147,25 @@ class Prover:
             if rs == "sat":
                 return "refuted", "z3", dt, md, None
             return "unknown", "z3", dt, None, reason
-        r = s.check()
+        full = timeout_ms or self.timeout_ms
+        quantified = has_quantifier(g) or (axioms and self.axioms) or any(
+            has_quantifier(h) for h in hyps if not isinstance(h, bool))
+        if quantified and full > 3000:
+            # quantifier / sequence reasoning: z3 either answers quickly or not at all; ask it
+            # briefly, then cvc5, and only then z3 again with the full budget
+            s.set("timeout", 3000)
+            r = s.check()
+            if r == z3.unknown and self.use_cli:
+                st_cli, be = self._cli(s)
+                dt = time.time() - t0
+                if st_cli == "unsat":
+                    self.stats[be] += 1
+                    return "proved", be, dt, None, None
+            if r == z3.unknown:
+                s.set("timeout", full)
+                r = s.check()
+        else:
+            r = s.check()
         dt = time.time() - t0
         if DEBUG and dt > 0.5:
             print("PYVC-SLOW check %.2fs %s to=%s :: %s" % (dt, r, timeout_ms or self.timeout_ms, str(g)[:160].replace("\n", " ")))
